@@ -34,18 +34,18 @@ impl Atom {
             }
             _ => 0
         };
-        let valence = self.bonds.iter().fold(hcount, |sum,bond| {
-            sum + bond.order()
+        let valence = self.bonds.iter().fold(hcount as usize, |sum,bond| {
+            sum + bond.order() as usize
         });
         let targets = self.kind.targets().iter()
-            .find(|&&target| target >= valence);
+            .find(|&&target| target as usize >= valence);
 
         let target = match targets {
             Some(target) => target,
             None => return 0
         };
         
-        target - valence
+        target - valence as u8
     }
 
     /// Returns the number of implicit or virtual hydrogens at this Atom,
